@@ -59,6 +59,12 @@ def runOp {α} [Num α] (secs : List (List String)) : String :=
     match parseDy (α := α) v, parseDy (α := α) s, parseDy (α := α) r with
     | some v, some s, some r => s!"V={Num.shw (regularizedEval v s r)}"
     | _, _, _ => "bad-op"
+  | [["onenorm"], xs, ms] => match nums xs, nums ms with
+    | some x, some m => s!"V={Num.shw (oneNormMasked m x)} G={showVec (List.zipWith (fun xi mi => sign xi * mi) x m)}"
+    | _, _ => "bad-op"
+  | [["twonorm"], xs, ms] => match nums xs, nums ms with
+    | some x, some m => s!"V={Num.shw (twoNormMasked m x)} G={showVec (List.zipWith (fun xi mi => mi * xi) x m)}"
+    | _, _ => "bad-op"
   | [["onenorm"], xs] => match nums xs with
     | some x => s!"V={Num.shw (oneNorm x)} G={showVec (x.map sign)}"
     | none => "bad-op"
